@@ -189,7 +189,8 @@ example : ∀ a ∈ [A.range [[S.num (.int 1), S.text []], [S.text "abc".toList,
   · exact Or.inr trivial
   · exact Or.inl rfl
 
-/-- D1405 (fixed): a BLANK scalar — a reference to a never-stored cell — is skipped, not counted as 0 -/
+/-- D1405 (fixed): a BLANK — an empty member of a range, a reference to a never-stored cell — is
+    skipped, not counted as 0; COUNTA does not count it, SUMPRODUCT takes it as zero -/
 example : AVERAGE Ext.none [.scalar .xBlank, .scalar (.xNumber (.int 4))] = .ok (.flt 4) := by
   decide +kernel
 example : MIN Ext.none [.scalar .xBlank, .scalar (.xNumber (.int 4))] = .ok (.int 4) := by
@@ -197,6 +198,12 @@ example : MIN Ext.none [.scalar .xBlank, .scalar (.xNumber (.int 4))] = .ok (.in
 example : MAX Ext.none [.scalar .xBlank, .scalar (.xNumber (.int (-4)))] = .ok (.int (-4)) := by
   decide +kernel
 example : mean [S.blank, S.num (.int 4)] = some 4 := by decide +kernel
+/-- a range of a compiled model with both kinds of empty member (B1 never stored → BLANK, A2 set to '') -/
+example : (AVERAGE Ext.none [rangeArray [[S.num (.int 2), S.blank], [S.text [], S.text "abc".toList]]],
+    COUNT [rangeArray [[S.num (.int 2), S.blank], [S.text [], S.text "abc".toList]]],
+    COUNTA [rangeArray [[S.num (.int 2), S.blank], [S.text [], S.text "abc".toList]]],
+    SUMPRODUCT Ext.none [rangeArray [[S.num (.int 2), S.blank], [S.text [], S.text "abc".toList]]]) =
+    (.ok (.flt 2), .ok (.int 1), .ok (.int 2), .ok (.flt 2)) := by decide +kernel
 
 /-- **count_spec** (partial: D1404).  COUNT is the count of numbers among the addressed values — for
     every typed value, not only the domain — provided at most 255 values are addressed. -/
@@ -391,12 +398,12 @@ theorem range_exact_partial (cells : List (List S)) (hrows : ∀ r ∈ cells, r 
 
    It is false for the model (and the code): after a run of more than `MAX_EMPTY` empty cells
    (counted across rows) the rest of the row is dropped, after `MAX_EMPTY` such rows the rest of the
-   range.  Counter-examples with the constant the code has now (A1 = 2, 101 empty cells, then 4): -/
-example : SUM Ext.none [rangeArray [S.num (.int 2) :: (List.replicate 101 (S.text []) ++ [S.num (.int 4)])]]
+   range.  Counter-examples with the constant the code has now (A1 = 2, 101 never-stored members (BLANK), then 4): -/
+example : SUM Ext.none [rangeArray [S.num (.int 2) :: (List.replicate 101 S.blank ++ [S.num (.int 4)])]]
     = .ok (.int 2) := by decide +kernel
-example : sum (S.num (.int 2) :: (List.replicate 101 (S.text []) ++ [S.num (.int 4)])) = 6 := by
+example : sum (S.num (.int 2) :: (List.replicate 101 S.blank ++ [S.num (.int 4)])) = 6 := by
   decide +kernel
-example : (S.num (.int 2) :: (List.replicate 101 (S.text []) ++ [S.num (.int 4)])) ≠ [] := by simp
+example : (S.num (.int 2) :: (List.replicate 101 S.blank ++ [S.num (.int 4)])) ≠ [] := by simp
 
 /-- **Through formulas.**  An aggregate formula over ranges of a compiled model and scalar operands
     (values of the domain, BLANK references included; ranges rectangular with at most `MAX_EMPTY`
